@@ -11,8 +11,9 @@ Purity: random histories of {access, edit, save, saveXML, getTableData, table.co
 set flavor} are compared with the same history with the observations removed: the bytes of
 the final save must be equal (never the XML dumps — those legitimately change).  A purity
 monitor on TTFont.save / saveXML / getTableData shadow-saves a deepcopy taken before and
-after each call.  Failed saves (a table compile made to raise; thorough: failpoints on
-random lines) must leave no trace either.
+after each call.  Failed saves (a table compile made to raise; a field set out of range and
+corrected afterwards) must leave no trace either; failpoints on random lines of save() are
+leads only (an exception at an arbitrary line is not something a caller can provoke).
 """
 import copy
 import difflib
@@ -43,17 +44,18 @@ ASSUMPTIONS = [
     "purity histories start from fully decompiled fonts (ensureDecompiled) or from TTX imports, so that removing an "
     "observation never changes *which* tables are recompiled (recompile-vs-raw differences are C01's subject); in "
     "'raw' mode only non-decompiling observations (save, getTableData) are inserted",
-    "the fully loaded Silf table of graphite_tests.ttf is excluded from purity histories (its compile raises TypeError: "
-    "candidate finding F1, which belongs to C01)",
     "a history whose observation itself raises is not judged here (round-trip failures belong to C01/C03)",
+    "an observation that changes the *set of decompiled tables* (a save that loads head/CFF/glyf to refresh bounding boxes, "
+    "a dump of a lazily loaded font) makes later saves recompile what earlier ones copied raw; that comparison is C01's "
+    "round trip, not purity, and is counted as precondition not met",
     "datetime.now() cannot be wrapped (C type); clock dependence is judged behaviourally by shifting time.time/gmtime/"
     "localtime by 400 days in one interpreter",
 ]
 REQUIRED_MONITORS = ["purity:TTFont.save", "purity:TTFont.saveXML", "purity:TTFont.getTableData", "c16_pipe"]
 CASE_TIMEOUT = 600
 MANIFEST = {
-    "text": "Exploration. Determinism: eight pipelines (recompile, TTX import, feature compilation of the corpus .fea files, subsetting, instancing, variable-font build from the corpus designspaces, merging, cu2qu) run in fresh interpreters under PYTHONHASHSEED 0,1,2,3 and random seeds, one interpreter with perturbed environment/cwd/locale and a clock shifted by 400 days; sha256 per output table compared by the parent, witness = first differing table with its XML diff; in-process lazy x table-access-order sweep. Purity: random operation histories with and without interleaved observations (save, saveXML, getTableData, compile, draw) must end in byte-identical saves; a monitor on save/saveXML/getTableData shadow-saves deep copies taken before and after each call; failed saves (table compile raising, failpoints) must leave no trace.",
-    "note": "Compares bytes of later saves, never object-model dumps. Histories start from fully decompiled or TTX-imported fonts. Silf of graphite_tests.ttf excluded (F1, C01).",
+    "text": "Exploration. Determinism: eight pipelines (recompile, TTX import, feature compilation of the corpus .fea files, subsetting, instancing, variable-font build from the corpus designspaces, merging, cu2qu) run in fresh interpreters under PYTHONHASHSEED 0,1,2,3 and random seeds, one interpreter with perturbed environment/cwd/locale and a clock shifted by 400 days; sha256 per output table compared by the parent, witness = first differing table with its XML diff; in-process lazy x table-access-order sweep. Purity: random operation histories with and without interleaved observations (save, saveXML, getTableData, compile, draw) must end in byte-identical saves; a monitor on save/saveXML/getTableData shadow-saves deep copies taken before and after each call; a save that failed (one table's compile raising; a field set out of range and then corrected) must leave no trace in the next save; the font a pipeline returns is saved twice. Failpoints on random lines of save() are recorded as leads only.",
+    "note": "Compares bytes of later saves, never object-model dumps. Histories start from fully decompiled or TTX-imported fonts.",
     "technique": "cross-process differential under hash-seed/environment/clock perturbation; history differential with shadow-save purity monitor; failpoint injection",
     "design_ref": "DESIGN.md §4 C16",
 }
@@ -159,8 +161,6 @@ def setup():
             _cur["purity_evals"] += 1
             hooks.count("purity:" + opname + ":judged")
             for tag in diff_tables(b0, b1):
-                if tag == "Silf":
-                    continue
                 if (opname, tag) in _cur["mon_seen"]:
                     continue
                 _cur["mon_seen"].add((opname, tag))
@@ -189,7 +189,6 @@ MERGE_PAIRS = [
     ["merge/data/CFFFont1.ttx", "merge/data/CFFFont2.ttx"],
 ]
 CU2QU_UFOS = ["cu2qu/data/RobotoSubset-Regular.ufo", "cu2qu/data/RobotoSubset-Bold.ufo"]
-SILF_FONT = "ttLib/tables/data/graphite/graphite_tests.ttf"
 
 
 def _exists(rel):
@@ -219,7 +218,7 @@ def _jobs(tier, seed, rnd):
         by["ttx"].append({"pipeline": "ttx", "input": r["path"]})
     must_ttx = ["cffLib/data/TestSparseCFF2VF.ttx"]
     feas = sorted(p for p in inv["other"]["fea"] if p.startswith("feaLib/data/") and p.count("/") == 2)
-    for p in pick(feas, 45):
+    for p in feas:          # compiling a feature file takes milliseconds: all of them in both tiers
         by["fea"].append({"pipeline": "fea", "input": p})
     subs = [r for r in nonaots if r["ncmap"] >= 2 and r["head"] and r["complete"] and r["size"] <= 120000]
     chosen = pick([r for r in subs if r["path"] != "subset/data/TestBSLN-1.ttx"], 18)
@@ -242,7 +241,7 @@ def _jobs(tier, seed, rnd):
         by["instance"].append({"pipeline": "instance", "input": r["path"], "mode": "partial"})
         by["instance"].append({"pipeline": "instance", "input": r["path"], "mode": "full"})
     dss = sorted(p for p in inv["other"]["designspace"] if p.startswith("varLib/data/") and p.count("/") == 2)
-    for p in pick(dss, 12):
+    for p in dss:
         by["build"].append({"pipeline": "build", "input": p})
     for pair in (MERGE_PAIRS if T else MERGE_PAIRS[:5]):
         if all(_exists(p) for p in pair):
@@ -271,16 +270,24 @@ def cases(tier, seed):
         cs.append(kw)
 
     # ---- determinism across interpreters
-    nrand = 12 if T else 1
+    nrand = 8 if T else 1
     seeds = ["0", "1", "2", "3"] + [str(rnd.randrange(4, 2 ** 32 - 1)) for _ in range(nrand)]
     by = _jobs(tier, seed, rnd)
     for pipe in PIPE_ORDER:
         jobs = by[pipe]
         for i, j in enumerate(jobs):
             j["id"] = "%s#%d" % (pipe, i)
-        step = {"merge": 5, "build": 12, "subset": 14, "cu2qu": 6, "fea": 24}.get(pipe, 16)
+        step = {"merge": 5, "build": 12, "subset": 14, "cu2qu": 6, "fea": 50, "build": 18}.get(pipe, 16)
         for i in range(0, len(jobs), step):
             add("seeds", pipeline=pipe, batch=i // step, jobs=jobs[i:i + step], seeds=seeds)
+
+    # ---- save; save after a pipeline, in process under the purity monitor
+    for pipe in ("subset", "instance", "build", "merge", "ttx"):
+        jobs = by[pipe]
+        step = 8
+        lim = len(jobs) if T else min(len(jobs), 16)
+        for i in range(0, lim, step):
+            add("twice", pipeline=pipe, batch=i // step, jobs=jobs[i:min(i + step, lim)])
 
     # ---- lazy x access order, in process
     fonts = [r for r in corpus.fonts("bin", lambda r: r["member"] is None and r["size"] <= 400000)]
@@ -314,7 +321,9 @@ def cases(tier, seed):
     add("history", font="<built>", mode="built", n=8 if T else 4)
 
     # ---- failed saves leave no trace
-    fs = ["ttx/data/TestTTF.ttf", "ttx/data/TestOTF.otf", "cffLib/data/TestSparseCFF2VF.ttx", "ttLib/data/TestTTF-Regular.ttx"]
+    fs = ["ttx/data/TestTTF.ttf", "ttx/data/TestOTF.otf", "cffLib/data/TestSparseCFF2VF.ttx", "ttLib/data/TestTTF-Regular.ttx",
+          "fontBuilder/data/test_var.ttf.ttx", "ttLib/tables/data/NotoSans-VF-cubic.subset.ttf", "subset/data/TestBSLN-1.ttx",
+          "ttLib/tables/data/graphite/graphite_tests.ttf"]
     if T:
         fs += [r["path"] for r in pool[:24]]
     for p in dict.fromkeys(fs):
@@ -438,9 +447,7 @@ def run_seeds(case, ctx, rnd):
                 continue
             tags = [t for t in sorted(set(b["tables"]) | set(r["tables"])) if b["tables"].get(t) != r["tables"].get(t)]
             real = [t for t in tags if not t.startswith("<")] or tags
-            kind = "hashseed"
-            if "+env" in lab:
-                kind = _attribute(spec, job, b, last, seeds[0], extra, cwd2, scratch, ctx)
+            kind = _attribute(spec, job, b, lab, last, seeds[0], extra, cwd2, scratch, ctx)
             first = real[0]
             witness = {"job": _job_desc(job), "seed_a": labels[0], "seed_b": lab, "differing_tables": tags}
             witness["xml_diff"] = _xml_witness(job, first, labels[0], lab, last, extra, cwd2, scratch)
@@ -456,14 +463,26 @@ def run_seeds(case, ctx, rnd):
                   "interpreters": labels, "inputs": [j.get("input") or j.get("inputs") for j in jobs][:5]}
 
 
-def _attribute(spec, job, base_rec, rand_seed, seed0, extra, cwd2, scratch, ctx):
-    """The perturbed run (random seed + environment + clock) differs: which of the three is it?"""
+def _attribute(spec, job, base_rec, lab, rand_seed, seed0, extra, cwd2, scratch, ctx):
+    """Which dimension makes the output differ: rerun the job alone with one thing changed at a time."""
     one = {"jobs": [job]}
+    jid = job["id"]
+
+    def differs(r):
+        return bool(r) and r["jobs"][jid].get("tables") != base_rec["tables"]
+
+    r, _ = _pipe(one, seed0, scratch)
+    if differs(r):
+        # same seed, same environment, another process: clock, pid or address dependence
+        r2, _ = _pipe(dict(one, clock_shift=CLOCK_SHIFT), seed0, scratch)
+        return "clock" if (r2 and (r2["clock"].get(jid) or r["clock"].get(jid))) else "unstable-across-processes"
+    if "+env" not in lab:
+        return "hashseed"
     r, _ = _pipe(one, rand_seed, scratch)
-    if r and r["jobs"][job["id"]].get("tables") != base_rec["tables"]:
+    if differs(r):
         return "hashseed"
     r, _ = _pipe(dict(one, clock_shift=CLOCK_SHIFT), seed0, scratch)
-    if r and r["jobs"][job["id"]].get("tables") != base_rec["tables"]:
+    if differs(r):
         return "clock"
     return "environment"
 
@@ -479,6 +498,75 @@ def _xml_witness(job, tag, lab_a, lab_b, rand_seed, extra, cwd2, scratch):
         x = (r or {}).get("jobs", {}).get(job["id"], {}).get("xml", {}).get(tag, "")
         outs.append(x.splitlines())
     return list(difflib.unified_diff(outs[0], outs[1], "run " + lab_a, "run " + lab_b, lineterm=""))[:40]
+
+
+# ------------------------------------------------------------------ save; save after a pipeline
+def run_twice(case, ctx, rnd):
+    """The font object a pipeline hands back is saved twice (and dumped in between): identical bytes."""
+    from vmon import c16_pipe
+
+    os.environ.setdefault("VMON_REPO", env.REPO)
+    n = 0
+    for job in case["jobs"]:
+        _cur.update(source="pipeline:" + job["pipeline"], font=str(job.get("input") or job.get("inputs")))
+        try:
+            res = c16_pipe.PIPES[job["pipeline"]](job)
+        except (CaseTimeout, MemoryError):
+            raise
+        except Exception as e:
+            ctx.skip("pipeline rejects input: %s/%s" % (job["pipeline"], type(e).__name__))
+            continue
+        if isinstance(res, tuple):
+            ctx.skip("pipeline does not return a font object")
+            continue
+        font = res
+        _cur.update(purity_on=True, depth=0)
+        try:
+            try:
+                loaded = set(font.tables)
+                a = corpus.save_bytes(font)
+                if set(font.tables) != loaded:
+                    # the first save decompiled tables the pipeline had left unloaded (e.g. head, fetched by
+                    # another table's compile): save #2 recompiles them, which is raw-copy versus recompile
+                    # (C01's subject, see ASSUMPTIONS).  From here on the loaded set is stable: judge #2 vs #3.
+                    ctx.note("first save loaded further tables; judging saves #2 and #3 instead")
+                    a = corpus.save_bytes(font)
+            except (CaseTimeout, MemoryError):
+                raise
+            except Exception as e:
+                ctx.skip("pipeline output does not save: %s" % type(e).__name__)
+                continue
+            try:
+                font.saveXML(io.StringIO())
+            except (CaseTimeout, MemoryError):
+                raise
+            except Exception:
+                ctx.note("saveXML of pipeline output raised (not this property)")
+            try:
+                b = corpus.save_bytes(font)
+                err = None
+            except (CaseTimeout, MemoryError):
+                raise
+            except Exception as e:
+                b, err = None, type(e).__name__
+        finally:
+            _cur.update(purity_on=False, depth=0)
+        ctx.judged()
+        n += 1
+        ctx.nontrivial("tw:%s" % hashlib.sha256(json.dumps(_job_desc(job), sort_keys=True).encode()).hexdigest()[:16])
+        if b is None:
+            _once(ctx, {"kind": "purity", "what": "later-save-raises", "source": _cur["source"], "type": err},
+                  "%s output of %s: first save succeeds, second raises %s" % (job["pipeline"], _cur["font"], err), {"job": _job_desc(job)})
+        elif a != b:
+            for tag in diff_tables(a, b):
+                _once(ctx, {"kind": "purity", "table": tag, "source": _cur["source"], "observation": "save"},
+                      "%s output of %s: save; saveXML; save gives different bytes in %r" % (job["pipeline"], _cur["font"], tag),
+                      {"job": _job_desc(job), "xml_diff": xml_diff(a, b, tag)})
+    ctx.note("pipeline outputs saved twice (%s)" % case["pipeline"], n)
+    ctx.note("purity monitor evaluations", _cur["purity_evals"])
+    ctx.note("purity monitor precondition not met", _cur["purity_skips"])
+    _cur["purity_evals"] = _cur["purity_skips"] = 0
+    ctx.sample = {"kind": "twice", "pipeline": case["pipeline"], "jobs": len(case["jobs"]), "judged": n}
 
 
 # ------------------------------------------------------------------ lazy x access order (in process)
@@ -501,8 +589,6 @@ def run_lazyorder(case, ctx, rnd):
             tags = [t for t in f.keys() if t != "GlyphOrder"]
             if p:
                 random.Random("%s/%d/%s" % (rel, p, case["seed"])).shuffle(tags)
-            if rel == SILF_FONT:
-                tags = [t for t in tags if t != "Silf"]
             for t in tags:
                 f[t]
             out = corpus.save_bytes(f)
@@ -606,8 +692,6 @@ def _fresh(case, mode, k=0):
         # k odd: the recalculation switches are off, so that save() itself loads no table
         return corpus.open_bytes(data, lazy=(None, True)[(k // 2) % 2], recalcBBoxes=(k % 2 == 0), recalcTimestamp=False)
     f = corpus.open_bytes(data, lazy=(None, False, True)[k % 3])
-    if rel == SILF_FONT and "Silf" in f:
-        del f["Silf"]      # F1 (C01): fully loaded Silf cannot be compiled at all
     f.ensureDecompiled()
     return f
 
@@ -841,8 +925,6 @@ def run_history(case, ctx, rnd):
         tags = diff_tables(a, b)
         obs = _minimise(case, mode, k, ops, lambda x, ex: x != b)
         for tag in tags:
-            if tag == "Silf":
-                continue
             _once(ctx, {"kind": "purity", "table": tag, "source": _cur["source"],
                         "observation": obs[0][1] if len(obs) == 1 else "several"},
                           "%s (%s): the final save differs in %r when observations are interleaved (%s)"
@@ -887,9 +969,8 @@ def run_failedsave(case, ctx, rnd):
         ctx.skip("font does not save: %s" % type(e).__name__)
         return
     tags = [t for t in ref_font.keys() if t != "GlyphOrder"]
-    seen = set()
 
-    def compare(font, how, detail):
+    def compare(font, how, detail, failed):
         try:
             out = corpus.save_bytes(font)
             err = None
@@ -900,15 +981,14 @@ def run_failedsave(case, ctx, rnd):
         ctx.judged()
         if out == ref:
             return
-        tgs = diff_tables(ref, out) if out is not None else ["<raises %s>" % err]
-        for tag in tgs:
-            mech = {"kind": "purity", "what": "failed-save-leaves-trace", "inject": how, "table": tag, "source": _cur["source"]}
-            key = tuple(sorted(mech.items()))
-            if key in seen:
-                continue
-            seen.add(key)
-            ctx.violation(mech, "%s: after a save that failed (%s) the next save differs in %r" % (rel, detail, tag),
-                          {"font": rel, "failure": detail, "xml_diff": xml_diff(ref, out, tag) if out else None})
+        effects = ["table-differs:%s" % t for t in diff_tables(ref, out)] if out is not None else ["later-save-raises:%s" % err]
+        for eff in effects:
+            mech = {"kind": "purity", "what": "failed-save-leaves-trace", "inject": how, "failed_table": failed, "effect": eff,
+                    "source": _cur["source"]}
+            tag = eff.split(":", 1)[1]
+            _once(ctx, mech, "%s: after a save that failed (%s) and the cause was removed, the next save %s"
+                  % (rel, detail, "raises " + tag if out is None else "differs in %r" % tag),
+                  {"font": rel, "failure": detail, "xml_diff": xml_diff(ref, out, tag) if out else None})
 
     n = 0
     for tag in tags:
@@ -931,9 +1011,59 @@ def run_failedsave(case, ctx, rnd):
         del victim.compile
         n += 1
         ctx.nontrivial("fs:%s:%s" % (rel[-20:], tag))
-        compare(font, "table-compile", "compile of %r raised" % tag)
+        compare(font, "table-compile", "compile of %r raised" % tag, tag)
     ctx.note("failed saves injected (table compile)", n)
-    nl = 0
+
+    # ---- natural failures: a field set out of range makes the table's own compile raise; the user
+    # ---- corrects the value and saves again
+    nn = 0
+    for tag in tags:
+        probe = ref_font[tag]
+        holders = [("", probe)]
+        if hasattr(probe, "table") and hasattr(probe.table, "__dict__"):
+            holders.append((".table", probe.table))
+        plan = []
+        for hname, h in holders:
+            names = sorted(k for k, v in vars(h).items() if isinstance(v, int) and not isinstance(v, bool) and not k.startswith("_"))
+            rnd.shuffle(names)
+            plan += [(hname, k) for k in names[:3]]
+        if tag in ("hmtx", "vmtx"):
+            plan.append(("metrics", None))
+        for hname, attr in plan:
+            font = _fresh(case, mode, 0)
+            t = font[tag]
+            try:
+                if hname == "metrics":
+                    g = font.getGlyphOrder()[0]
+                    old = t.metrics[g]
+                    t.metrics[g] = (2 ** 40, old[1])
+                    undo = lambda t=t, g=g, old=old: t.metrics.__setitem__(g, old)
+                    detail = "%s.metrics[%r] advance = 2**40" % (tag, g)
+                else:
+                    h = t.table if hname == ".table" else t
+                    old = getattr(h, attr)
+                    setattr(h, attr, 2 ** 40)
+                    undo = lambda h=h, attr=attr, old=old: setattr(h, attr, old)
+                    detail = "%s%s.%s = 2**40" % (tag, hname, attr)
+            except Exception:
+                continue
+            try:
+                font.save(io.BytesIO())
+                continue                      # the value is ignored or recalculated: no failed save
+            except (CaseTimeout, MemoryError):
+                raise
+            except Exception as e:
+                detail += " -> save raised %s" % type(e).__name__
+            undo()
+            nn += 1
+            ctx.nontrivial("fn:%s:%s:%s%s" % (rel[-16:], tag, hname, attr))
+            compare(font, "out-of-range-value", detail, tag)
+    ctx.note("failed saves provoked (field out of range, then corrected)", nn)
+
+    # ---- failpoints on random lines of the save: leads only.  An exception at an arbitrary line is not
+    # ---- something a caller can provoke, so a trace found this way is recorded in the evidence and must be
+    # ---- confirmed by one of the two realistic failure kinds above to count.
+    nl = leads = 0
     if case.get("lines"):
         fp = probes.FailpointSession(lambda fn: fn.startswith(env.LIB))
         font = _fresh(case, mode, 0)
@@ -957,7 +1087,15 @@ def run_failedsave(case, ctx, rnd):
                 continue
             nl += 1
             fn, qn, ln = fp.points[k]
-            ctx.nontrivial("fl:%s:%s:%d" % (rel[-14:], os.path.basename(fn)[:12], ln))
-            compare(font, "line", "injected at %s:%d (%s)" % (os.path.relpath(fn, env.LIB), ln, qn))
-        ctx.note("failed saves injected (code line)", nl)
-    ctx.sample = {"kind": "failedsave", "font": rel, "table_compile_failures": n, "line_failures": nl}
+            try:
+                out = corpus.save_bytes(font)
+            except (CaseTimeout, MemoryError):
+                raise
+            except Exception:
+                out = None
+            if out != ref:
+                leads += 1
+                ctx.note("lead (not judged): trace after failpoint in %s" % qn)
+        ctx.note("failed saves injected (code line, leads only)", nl)
+    ctx.sample = {"kind": "failedsave", "font": rel, "table_compile_failures": n, "natural_failures": nn, "line_failpoints": nl,
+                  "line_failpoint_leads": leads}
